@@ -30,6 +30,7 @@ declare -A PROP=(
  ["open/close PullPositions applies the read mask to a copy"]="C07"
  ["wrap guards the stream's close error"]="C11"
  ["open/close PullPositions lists positions"]="C14"
+ ["wrap ends a call whose context is already done"]="C13"
 )
 git -C /repo log --format='%h %s' | grep ' fix: ' | while read -r h subj; do
   prop=""
@@ -40,10 +41,9 @@ git -C /repo log --format='%h %s' | grep ' fix: ' | while read -r h subj; do
   if ! git -C $WT revert --no-commit $h >/dev/null 2>&1; then
     echo "-- $h $subj (revert conflicts with later commits, skipped)"; git -C /repo worktree remove --force $WT; continue
   fi
-  out=$(VERIF_REPO=$WT ./check $prop quick 2>&1); rc=$?
+  out=$(VERIF_REPO=$WT VERIF_OUT=/tmp/verif-sens-out ./check $prop quick 2>&1); rc=$?
   cls=$(echo "$out" | grep -m1 '^  class=' | sed 's/ scenario.*//')
   echo "rc=$rc $prop $h $subj |$cls"
   git -C /repo worktree remove --force $WT
-  rm -rf replays/$prop
 done
-git -C /repo worktree prune
+git -C /repo worktree prune; rm -rf /tmp/verif-sens-out
